@@ -101,3 +101,9 @@ type Prelude interface{ Prelude() error }
 type Deriver interface {
 	Derive(desc any) map[string]any
 }
+
+// Confirmer marks verdicts that depend on machine load; the engine re-executes
+// their single-input replay alone before counting them.
+type Confirmer interface {
+	NeedsConfirm(r Result) bool
+}
